@@ -1186,3 +1186,36 @@ Section RepeatedProofs.
     End SortContract.
   End Less.
 End RepeatedProofs.
+
+(** * Buffer.Less over any mix of sorting columns
+
+    Buffer.Less walks the sorting columns: "case col.Less(i, j): return true;
+    case col.Less(j, i): return false" and goes on to the next column.  When
+    the Less of every column is "its comparator < 0" (required and optional
+    columns: [sorted_less_spec]; repeated columns: [rcol_less_spec]) the walk
+    is the lexicographic comparator of compare.go: the first column whose
+    comparator is not 0 decides. *)
+Fixpoint less_walk (ls : list (nat -> nat -> bool)) (i j : nat) : bool :=
+  match ls with
+  | [] => false
+  | l :: t => if l i j then true else if l j i then false else less_walk t i j
+  end.
+
+Fixpoint lex_cmp (cs : list (nat -> nat -> Z)) (i j : nat) : Z :=
+  match cs with
+  | [] => 0%Z
+  | c :: t => if (c i j =? 0)%Z then lex_cmp t i j else c i j
+  end.
+
+Theorem less_walk_lexicographic ls cs i j :
+  Forall2 (fun (l : nat -> nat -> bool) (c : nat -> nat -> Z) =>
+             l i j = (c i j <? 0)%Z /\ l j i = (c j i <? 0)%Z /\
+             (c i j < 0 <-> c j i > 0)%Z /\ (c j i < 0 <-> c i j > 0)%Z) ls cs ->
+  less_walk ls i j = (lex_cmp cs i j <? 0)%Z.
+Proof.
+  induction 1 as [|l c ls cs (E1 & E2 & O1 & O2) _ IH]; simpl; [reflexivity|].
+  rewrite E1, E2, IH.
+  destruct (Z.eqb_spec (c i j) 0) as [E|E].
+  - rewrite E. simpl. destruct (Z.ltb_spec (c j i) 0); [lia|reflexivity].
+  - destruct (Z.ltb_spec (c i j) 0); [reflexivity|]. destruct (Z.ltb_spec (c j i) 0); [reflexivity|lia].
+Qed.
